@@ -66,13 +66,14 @@ NoMsg == [start |-> 0, extent |-> 0, method |-> <<>>, target |-> <<>>, vmaj |-> 
 Init0 == [phase |-> "start", pos |-> 1, msgs |-> <<>>, cur |-> NoMsg, remaining |-> 0,
           reason |-> "", rejectAt |-> 0, soft |-> <<>>, wait |-> FALSE,
           over |-> FALSE, between |-> FALSE, tight |-> FALSE, nearCount |-> FALSE,
-          pendUpgrade |-> FALSE, attributed |-> 0, tailFrom |-> 0, base |-> 0, pendLF |-> FALSE, rejPhase |-> "", headBody |-> FALSE]
+          pendUpgrade |-> FALSE, attributed |-> 0, tailFrom |-> 0, base |-> 0, pendLF |-> FALSE, rejPhase |-> "", headBody |-> FALSE, rejObs |-> FALSE]
 
 Terminal(s) == s.phase \in {"rejected", "undecided", "closed", "tunnel"}
 
-Alt(name) == [name |-> name, kind |-> "alt"]
-Dev(name) == [name |-> name, kind |-> "dev"]
-AddSoft(s, xs) == [s EXCEPT !.soft = s.soft \o xs]
+Alt(name) == [name |-> name, kind |-> "alt", m |-> 0]
+Dev(name) == [name |-> name, kind |-> "dev", m |-> 0]
+\* m = number of the message (1-based) in which the rule fired
+AddSoft(s, xs) == [s EXCEPT !.soft = s.soft \o [i \in 1..Len(xs) |-> [xs[i] EXCEPT !.m = Len(s.msgs) + 1]]]
 Reject(s, why) == [s EXCEPT !.phase = "rejected", !.reason = why, !.rejectAt = s.base + s.pos, !.wait = FALSE,
                              !.pendLF = FALSE, !.rejPhase = s.phase]
 RejectOver(s, why) == [Reject(s, why) EXCEPT !.over = TRUE]
@@ -504,7 +505,9 @@ StepChunkSize(s, q, n, cfg0) ==
         r == TakeLine(q, s.pos, n, cfg.maxLine, cfg.lax)
     IN CASE r.kind = "need" -> Wait(s)
          [] r.kind = "toolong" -> RejectOver(s, "ChunkLineTooLong")
-         [] r.kind = "barelf" -> Reject(s, "BareLF")
+         [] r.kind = "barelf" ->       \* rejObs: see below; the parser's own "line" runs to the next CRLF
+              [Reject(s, "BareLF") EXCEPT !.rejObs = AnyB(Slice(q, s.pos, IF r.alt # 0 THEN r.alt ELSE Min2(n, s.pos + cfg.maxLine)),
+                                                             IsObsText)]
          [] OTHER ->
               LET k == r.next - s.pos
                   \* the lax client strips only one kind of line end here: the chunk-size line is cut
@@ -514,7 +517,9 @@ StepChunkSize(s, q, n, cfg0) ==
                   \* lax: the limit is applied to the line cut at LF, i.e. including a trailing CR
                   sT == IF Len(raw) > cfg.maxLine THEN [s EXCEPT !.tight = TRUE] ELSE s
               IN IF Len(r.line) > cfg.maxLine THEN RejectOver(s, "ChunkLineTooLong")
-                 ELSE IF ~p.ok THEN Reject(s, "ChunkSize")
+                 \* rejObs: the bad size line holds bytes >= 0x80 (the parser then builds an error text that
+                 \* cannot be encoded - own deviation at the connection level)
+                 ELSE IF ~p.ok THEN [Reject(s, "ChunkSize") EXCEPT !.rejObs = AnyB(raw, IsObsText)]
                  ELSE LET s1 == AddSoft(Extent(NoteLen([sT EXCEPT !.pos = r.next], Len(r.line), cfg, FALSE), k), p.soft)
                       IN IF p.size = 0 THEN [s1 EXCEPT !.phase = "trailers"]       \* last-chunk
                          ELSE [s1 EXCEPT !.phase = "cdata", !.remaining = p.size]
